@@ -167,6 +167,16 @@ def readFrame (s : Bytes) : GoResult (Bytes × Bytes) :=
       if ((s.drop 4).length : Int) < length then .err           -- io.ReadFull(payload) fails
       else .ok ((s.drop 4).take length.toNat, (s.drop 4).drop length.toNat)
 
+/-- The connection loop (`handleConnection`): `ReadFrame` again and again on the same stream until it fails;
+`(payloads in order, what is left of the stream when it stops)`.  Fuel = an upper bound on the number of frames. -/
+def readFramesAux : Nat → Bytes → List Bytes × Bytes
+  | 0, s => ([], s)
+  | f + 1, s =>
+    match readFrame s with
+    | .ok (p, rest) => let (ps, r) := readFramesAux f rest; (p :: ps, r)
+    | _ => ([], s)
+def readFrames (s : Bytes) : List Bytes × Bytes := readFramesAux (s.length + 1) s
+
 /-- `WriteFrame` (payload shorter than 2^31). -/
 def writeFrame (payload : Bytes) : Bytes := putU32 payload.length ++ payload
 
